@@ -637,6 +637,8 @@ def rule_own_text_parsed(ctx):
     loc = "fakesnow/cursor.py"
 
     class H(FullHooks):
+        earlier_calls_filled_caches = True  # the second of two commands is the interesting one
+
         def __init__(self):
             super().__init__(None, "SELECT", undefined_var=False)
             self.handed = []
@@ -669,7 +671,11 @@ def rule_own_text_parsed(ctx):
             isinstance(v, NodeV) and v.open and h.parsed == 0)
         folded = [tagof(x)[:60] for x in _prov_nodes(v) if isinstance(x, Sym) and x.origin and x.origin[0] in ("upper", "lower", "casefold")
                   or (isinstance(x, Sym) and x.origin and x.origin[0] == "method" and x.origin[2] in ("upper", "lower", "casefold", "strip", "split"))]
-        ok = h.parsed >= 1 and not folded
+        # a statement served from a cache is this call's own parse when the cache is keyed by the exact text handed to the parser
+        cache_keys = [x.origin[2] for x in _prov_nodes(v) if isinstance(x, Sym) and x.origin and x.origin[0] in ("dictget", "index") and len(x.origin) > 2]
+        exact_cache = bool(cache_keys) and not folded and all(
+            any(isinstance(y, Sym) and y.tag == "COMMAND" for y in _prov_nodes(k_)) or (isinstance(k_, Sym) and k_.tag == "COMMAND") for k_ in cache_keys)
+        ok = (h.parsed >= 1 or exact_cache) and not folded
         ctx.ob("C02.i", "the statement handed to the rewrite pipeline is this call's own parse", ok, loc,
                "" if ok else f"parses in this call: {h.parsed}; statement `{tagof(v)[:60]}`")
         if not ok:
